@@ -21,9 +21,11 @@ func init() {
 				"(precheck) a state mutator that can panic on its arguments (derived: a non-io panic in it or in its same-module callees) is 'partial'; every call of a partial mutator from a live handler's deliver block must be dominated by the outcome of its registered pre-check sibling on the same arguments (CheckMint→PairMint, CheckBurn→PairBurn, CheckCreate→PairCreate, IsBlockedPubKey→ChangePubKey, WaitList.Get≠nil→Waitlist.Delete, symbol-exists→Recreate*, IsOrderAlreadyUsed→PairRemoveLimitOrder …); a partial mutator with no registered pre-check is a violation; " +
 				"(feeswap) the amount handed to the fee swap PairSellWithOrders(commissionCoin, base, amount, 0) is, on every acyclic path, an amount that a successful CalculateCommission / CheckSwap on the same pool produced or validated — selling an unvalidated amount panics inside the pool (found and repaired: the balance-capped failure fee was validated only for custom-coin price tables; 1 pip of a pool token crashed DeliverTx); " +
 				"(nil) in block-level protocol code (BeginBlock/EndBlock outside RunTx) the result of a may-return-nil state lookup is not dereferenced unless dominated by a nil test of that value or listed with the invariant that excludes nil; " +
-				"(assert) single-value type assertions on tx.decodedData in RunTx are dominated by the matching tx.Type test.",
+				"(assert) single-value type assertions on tx.decodedData in RunTx are dominated by the matching tx.Type test; " +
+				"(pricenil) CommissionData of every live type — evaluated by RunTx before the data is validated — returns only price-table fields and arithmetic over them, never a map element, nil or a value of unknown origin; " +
+				"(pricecoin) a commission vote is recorded only for the base coin or a coin that has a swap pool with the base coin: RunTx converts every fee through that pool without checking that it exists.",
 			Assumptions: append([]string{"a pre-check sibling rejects exactly the arguments on which its mutator panics (their arithmetic is not compared)"}, stdAssumptions...),
-			Rules:       []string{"C07.inventory", "C07.precheck", "C07.feeswap", "C07.nil", "C07.assert"},
+			Rules:       []string{"C07.inventory", "C07.precheck", "C07.feeswap", "C07.nil", "C07.assert", "C07.pricenil", "C07.pricecoin"},
 		},
 		Run: runC07,
 	})
@@ -655,6 +657,10 @@ func runC07(c *core.Ctx) {
 	checkBlockLevelNil(c, "C07.nil")
 	// ---- assert
 	checkDataAsserts(c, "C07.assert")
+	// ---- pricenil
+	checkPriceTotal(c, "C07.pricenil")
+	// ---- pricecoin
+	checkPriceCoin(c, "C07.pricecoin")
 }
 
 // checkV2Wiring: initState builds the state with NewStateV3, whose constructor stores a fresh
@@ -1469,4 +1475,210 @@ func typeEqConsts(cond ssa.Value, passTrue bool) []int64 {
 		}
 	}
 	return out
+}
+
+// ---------------------------------------------------------------- pricenil
+
+// checkPriceTotal — RunTx computes tx.Price(commissions) — CommissionData of the decoded data —
+// BEFORE the data has been validated by the handler's basicCheck. Whatever CommissionData returns
+// is fed to big.Int arithmetic, so for every decodable data value it has to be a non-nil *big.Int:
+// every value it returns or combines must be a field of the price table, a fresh big.Int or the
+// result of arithmetic over such values — never a map element (nil for a missing key), a nil
+// constant or a value of unknown origin.
+func checkPriceTotal(c *core.Ctx, rule string) {
+	hs, err := c.Live()
+	if err != nil {
+		c.Unk(rule, "live-set", token.NoPos, err.Error())
+		return
+	}
+	var why string
+	var total func(v ssa.Value, d int, seen map[ssa.Value]bool) bool
+	fnTotal := func(fn *ssa.Function, d int) bool {
+		if fn == nil || fn.Blocks == nil || d > 5 {
+			why = "a helper whose body is not available"
+			return false
+		}
+		for _, o := range core.ResultOrigins(fn, 0) {
+			if !total(o, d+1, map[ssa.Value]bool{}) {
+				return false
+			}
+		}
+		return true
+	}
+	total = func(v ssa.Value, d int, seen map[ssa.Value]bool) bool {
+		if v == nil || seen[v] {
+			return true
+		}
+		seen[v] = true
+		if _, ok := isPriceField(v); ok {
+			return true
+		}
+		switch x := core.Unwrap(v).(type) {
+		case *ssa.Const:
+			if x.Value == nil {
+				why = "a nil constant"
+				return false
+			}
+			return true
+		case *ssa.Phi:
+			for _, e := range x.Edges {
+				if !total(e, d, seen) {
+					return false
+				}
+			}
+			return true
+		case *ssa.UnOp:
+			if _, ok := isPriceField(x); ok {
+				return true
+			}
+			for _, o := range core.Origins(x) {
+				if o == ssa.Value(x) {
+					why = "a value loaded from " + describe(x.X)
+					return false
+				}
+				if !total(o, d, seen) {
+					return false
+				}
+			}
+			return true
+		case *ssa.Alloc:
+			return true // new(big.Int): a fresh value
+		case *ssa.Lookup, *ssa.Extract:
+			why = "a map element / multi-value result (" + describe(v) + "): nil for a missing key"
+			return false
+		case *ssa.Call:
+			name := core.CalleeName(&x.Call)
+			switch {
+			case name == "math/big.NewInt":
+				return true
+			case strings.HasPrefix(name, "(*math/big.Int)."):
+				// z.Op(x, y): the receiver and the operands must be total
+				for _, a := range x.Call.Args {
+					if isBigIntPtr(a.Type()) && !total(a, d, seen) {
+						return false
+					}
+				}
+				return true
+			}
+			if sc := x.Call.StaticCallee(); sc != nil && c.InRepo(sc) {
+				return fnTotal(sc, d)
+			}
+			if x.Call.IsInvoke() {
+				// PayForSymbol through the symbolCreator interface: every live implementation
+				ok := true
+				n := 0
+				for _, h := range hs {
+					if m := c.Method(h.Type, x.Call.Method.Name()); m != nil {
+						n++
+						if !fnTotal(m, d) {
+							ok = false
+						}
+					}
+				}
+				if n == 0 {
+					why = "an interface call with no live implementation"
+					return false
+				}
+				return ok
+			}
+			why = "the result of " + name
+			return false
+		}
+		why = "a value of unknown origin (" + describe(v) + ")"
+		return false
+	}
+	n := 0
+	for _, h := range hs {
+		fn := c.Method(h.Type, "CommissionData")
+		if fn == nil {
+			continue
+		}
+		n++
+		why = ""
+		ok := fnTotal(fn, 0)
+		c.Check(ok, rule, h.TypeName+".CommissionData", fn.Pos(), "returns price-table fields and arithmetic over them only (non-nil for every decodable data value)",
+			"CommissionData can return or combine "+why+": RunTx prices the transaction before validating its data, so a crafted transaction makes the fee arithmetic dereference nil")
+	}
+	c.Floor(rule, n, 37, "live CommissionData methods")
+}
+
+// ---------------------------------------------------------------- pricecoin
+
+// checkPriceCoin — RunTx converts every fee through GetSwapper(commissions.Coin, base) whenever the
+// price table's coin is not the base coin, without testing that the pool exists (a missing pool is
+// a nil pair: nil dereference on every transaction from the block the table is installed). The
+// table's coin is whatever >2/3 of the validators voted, so the vote handler is the only gate: on
+// every path on which the live VoteCommission basicCheck does not reject, the voted coin is the
+// base coin or SwapPoolExist(coin, base) holds.
+func checkPriceCoin(c *core.Ctx, rule string) {
+	hs, err := c.Live()
+	if err != nil {
+		c.Unk(rule, "live-set", token.NoPos, err.Error())
+		return
+	}
+	var h *core.Handler
+	for _, x := range hs {
+		if x.ConstName == "TypeVoteCommission" {
+			h = x
+		}
+	}
+	if h == nil || h.Basic == nil {
+		c.Unk(rule, "VoteCommission/basicCheck", token.NoPos, "live VoteCommission handler or its basicCheck not found")
+		return
+	}
+	fn := h.Basic
+	n := 0
+	for _, r := range core.Returns(fn) {
+		if fn.Recover != nil && r.Block() == fn.Recover {
+			continue
+		}
+		// accepting or delegating return: not a freshly built &Response{…}
+		if _, isAlloc := core.Unwrap(resolveRet(r, 0)).(*ssa.Alloc); isAlloc {
+			continue
+		}
+		n++
+		paths, ok := core.PathsTo(r, 5000)
+		if !ok {
+			c.Unk(rule, h.TypeName+".basicCheck/paths", r.Pos(), "too many paths")
+			continue
+		}
+		bad := ""
+		for _, p := range paths {
+			if !pathConsistent(p) {
+				continue
+			}
+			okPath := false
+			for _, e := range p.Edges {
+				call, isCall := core.Unwrap(e.If.Cond).(*ssa.Call)
+				truth := e.Taken
+				if !isCall {
+					if u, isNot := e.If.Cond.(*ssa.UnOp); isNot && u.Op == token.NOT {
+						call, isCall = core.Unwrap(u.X).(*ssa.Call)
+						truth = !truth
+					}
+				}
+				if !isCall || !truth {
+					continue
+				}
+				switch methodNameOfCall(call) {
+				case "IsBaseCoin":
+					if strings.HasSuffix(core.Path(call.Call.Args[0]), ".Coin") {
+						okPath = true
+					}
+				case "SwapPoolExist":
+					s := &core.Site{Instr: call, Common: &call.Call}
+					if strings.HasSuffix(core.Path(s.Arg(0)), ".Coin") && strings.HasSuffix(core.Path(s.Arg(1)), "GetBaseCoinID()") {
+						okPath = true
+					}
+				}
+			}
+			if !okPath {
+				bad = "path through blocks " + blockList(p)
+				break
+			}
+		}
+		c.Check(bad == "", rule, h.TypeName+".basicCheck/pool-or-base", r.Pos(), "every non-rejecting path has data.Coin.IsBaseCoin() or SwapPoolExist(data.Coin, base)",
+			"a commission vote can be accepted for a coin that is neither the base coin nor paired with it in a swap pool ("+bad+"): once such a table is installed RunTx dereferences a nil pool on every transaction")
+	}
+	c.Floor(rule, n, 1, "non-rejecting returns of the VoteCommission basicCheck")
 }
